@@ -62,8 +62,10 @@ theorem solve_error_not_panic (reqs : List (Constraint α × Nat)) (g : List (Na
   obtain ⟨p, _, _, hr⟩ := C03.highest_level_error reqs g cfg solve svd f h
   exact solve_total reqs g cfg solve svd hs ha p 0 f hr
 
-/-- C06.5 — the loop is structural recursion on the cap: the LU oracle is consulted for round
-numbers `< max_iterations` only (every reported iteration count is below the cap). -/
+/-- C06.5 — every reported iteration count of a successful Newton run is below the cap.  (That the
+run terminates is structural recursion on the cap — a fact about the definition, not this theorem;
+the number of configurations a run visits is bounded by the cap in
+`iteratesFrom_length_le`, `Ezpz/Proofs/Visited.lean`.) -/
 theorem iterations_bounded (es : List (Entry α)) (cfg : Config α)
     (solve : Nat → List (Triplet α) → List α → Except SolveError (List α)) (x : List α)
     (r : NewtonOk α) (h : newton es cfg solve x = .ok r) : r.iterations < cfg.maxIterations := by
